@@ -1,5 +1,7 @@
 (* C19 -- Static analysis reports everything a render can touch.
-   Model: StaticAnalysis.v (analyze = the repaired _visit walk; exec_prog = the tracing interpreter;
+   Model: StaticAnalysis.v (analyze = the repaired _visit walk; exec_prog = the tracing interpreter, over
+   output/echo, assign, capture, increment/decrement, for/else and tablerow over paths and ranges, if/unless/
+   elsif/else, case/when/else, cycle, liquid, with, macro/call, include, render, paths with nested paths;
    analyze_old = the walk before the three fix: commits).  Proofs: StaticAnalysis_Proofs.v. *)
 From LiquidVerif Require Import Prelude StaticAnalysis StaticAnalysis_Proofs.
 
@@ -80,3 +82,13 @@ Proof. exact repaired_on_witnesses. Qed.
 Example C19_trace_nonempty :
   length (d_trace (exec_prog W_seen 20 W_seen_data)) = 8 /\ d_status (exec_prog W_seen 20 W_seen_data) = Running.
 Proof. vm_compute. split; reflexivity. Qed.
+
+(* non-vacuity for the widened language: a program using unless/elsif, case/when, tablerow over a range, cycle,
+   liquid, decrement and a nested path is analysed and rendered; the nested path is reported and read on its own *)
+Example C19_wide_language_example :
+  exists A, analyze W_wide 20 = Ok A /\
+    In {| p_root := q_b; p_segs := [SKey q_k] |} (a_vars A) /\
+    In (ERead {| p_root := q_b; p_segs := [SKey q_k] |} true false) (d_trace (exec_prog W_wide 20 W_wide_data)) /\
+    length (filter (event_eqb (ERead (pv q_a) false false)) (d_trace (exec_prog W_wide 20 W_wide_data))) = 3 /\
+    d_status (exec_prog W_wide 20 W_wide_data) = Running.
+Proof. exact wide_language_example. Qed.
